@@ -10,14 +10,14 @@ let rec int_of_pos (p : positive) : int =
   match p with XH -> 1 | XO q -> 2 * int_of_pos q | XI q -> 2 * int_of_pos q + 1
 let int_of_n (x : n) : int = match x with N0 -> 0 | Npos p -> int_of_pos p
 
-let unhex (s : string) : n list =
+let unhex (s : Stdlib.String.t) : n list =
   if s = "-" then [] else begin
     let l = String.length s / 2 in
     let rec go i acc = if i < 0 then acc else
       go (i - 1) (n_of_int (int_of_string ("0x" ^ String.sub s (2 * i) 2)) :: acc) in
     go (l - 1) []
   end
-let hex (l : n list) : string =
+let hex (l : n list) : Stdlib.String.t =
   if l = [] then "-" else begin
     let b = Buffer.create 64 in
     List.iter (fun x ->
@@ -34,13 +34,75 @@ let opt_pair = function
   | None -> "none"
   | Some (a, b) -> Printf.sprintf "some\t%s\t%s" (hex a) (hex b)
 
-let dispatch (f : string list) : string =
+let split c s = if s = "" then [] else String.split_on_char c s
+let hexlist (l : n list list) : Stdlib.String.t = if l = [] then "" else String.concat "|" (List.map hex l)
+let unhexlist (s : Stdlib.String.t) : n list list = List.map unhex (split '|' s)
+
+let code_of_int (i : int) : code = { sev = n_of_int (i / 100); cat = n_of_int ((i / 10) mod 10); det = n_of_int (i mod 10) }
+let int_of_code (c : code) : int = 100 * int_of_n c.sev + 10 * int_of_n c.cat + int_of_n c.det
+
+let mech_of_char = function 'P' -> Plain | 'L' -> Login | _ -> Xoauth2
+let mechs_of_string (s : Stdlib.String.t) : mech list = List.init (String.length s) (fun i -> mech_of_char s.[i])
+
+let ekind_s = function Transient -> "transient" | Permanent -> "permanent" | EResponse -> "response"
+  | EClient -> "client" | EConnection -> "connection" | ENetwork -> "network" | ETls -> "tls" | EShutdown -> "shutdown"
+let err_s (e : error) : Stdlib.String.t =
+  Printf.sprintf "err,%s,%s,%s,%d" (ekind_s e.ek)
+    (match e.ecode with Some c -> string_of_int (int_of_code c) | None -> "-") (hex e.etext) (if e.etimeout then 1 else 0)
+let resp_s (r : response) : Stdlib.String.t = Printf.sprintf "ok,%d,%s" (int_of_code r.rcode) (hexlist r.rlines)
+let rres_s = function Ok r -> resp_s r | Err e -> err_s e | Panic -> "panic"
+let b01 b = if b then "1" else "0"
+let info_s (i : sinfo) : Stdlib.String.t =
+  let f = List.filter_map (fun (b, n) -> if b then Some n else None)
+    [ (i.f_8bit, "8BITMIME"); (i.f_utf8, "SMTPUTF8"); (i.f_starttls, "STARTTLS"); (i.f_plain, "PLAIN"); (i.f_login, "LOGIN"); (i.f_xoauth2, "XOAUTH2") ] in
+  Printf.sprintf "conn,%s,%s" (hex i.si_name) (String.concat "+" f)
+
+let parse_chunk (s : Stdlib.String.t) : chunk =
+  match split ',' s with
+  | [d; c] -> { cdata = unhex d; cclose = (c = "1") }
+  | _ -> failwith "chunk"
+let parse_op (s : Stdlib.String.t) : cop =
+  match split ',' s with
+  | ["send"; f; tos; m] ->
+      OSend ({ e_from = (if f = "!" then None else Some (unhex f)); e_to = unhexlist tos }, unhex m)
+  | ["auth"; ms; u; p] -> OAuth (mechs_of_string ms, unhex u, unhex p)
+  | ["noop"] -> ONoop
+  | ["quit"] -> OQuit
+  | ["abort"] -> OAbort
+  | _ -> failwith ("op " ^ s)
+let cres_s = function
+  | RResp (r, b) -> rres_s r ^ ",b" ^ b01 b
+  | RBool (v, b) -> "bool," ^ b01 v ^ ",b" ^ b01 b
+  | RUnit b -> "unit,b" ^ b01 b
+let unit_s = function ULine b -> "L:" ^ hex b | UData b -> "D:" ^ hex b
+
+let dispatch (f : Stdlib.String.t list) : Stdlib.String.t =
   match f with
   | ["codec.encode"; st; m] ->
       let (s, o) = encode (cstate_of_int (int_of_string st)) (unhex m) in
       Printf.sprintf "%d\t%s" (int_of_cstate s) (hex o)
   | ["codec.wire"; m] -> hex (wire (unhex m))
   | ["spec.server_data"; w] -> opt_pair (server_data (unhex w))
+  | ["resp.parse"; i] ->
+      (match parse_response (unhex i) with
+       | Done (r, rest) -> Printf.sprintf "done\t%d\t%s\t%s" (int_of_code r.rcode) (hexlist r.rlines) (hex rest)
+       | Incomplete -> "incomplete" | Error -> "error" | Failure -> "failure")
+  | ["serverinfo"; c; ls] ->
+      (match from_response { rcode = code_of_int (int_of_string c); rlines = unhexlist ls } with
+       | Ok i -> info_s i | Err e -> err_s e | Panic -> "panic")
+  | ["b64.enc"; i] -> hex (b64enc (unhex i))
+  | ["b64.dec"; i] -> (match b64dec (unhex i) with Some o -> "ok\t" ^ hex o | None -> "err")
+  | ["utf8.valid"; i] -> b01 (utf8_valid (unhex i))
+  | ["split_ws"; i] -> hexlist (split_ws (unhex i))
+  | ["xtext"; i] -> hex (xtext (unhex i))
+  | ["auth.response"; m; u; p; c] ->
+      (match mech_response (mech_of_char m.[0]) (unhex u) (unhex p) (if c = "!" then None else Some (unhex c)) with
+       | Ok o -> "ok\t" ^ hex o | Err e -> err_s e | Panic -> "panic")
+  | ["client.run"; hello; sc; ops] ->
+      let ((c, rs), us) = run_session (unhex hello) (List.map parse_chunk (split ';' sc)) (List.map parse_op (split ';' ops)) in
+      Printf.sprintf "%s\t%s\t%s"
+        (match c with Ok i -> info_s i | Err e -> err_s e | Panic -> "panic")
+        (String.concat ";" (List.map cres_s rs)) (String.concat ";" (List.map unit_s us))
   | fn :: _ -> "UNKNOWN-FN " ^ fn
   | [] -> "EMPTY"
 
